@@ -1,4 +1,6 @@
 import Vflow.Model.Producer
+import Vflow.Model.SaramaLoop
+import Vflow.Gen.ProducerFacts
 /-! line protocol: `producer <proto> <retry-max> <seed> <n> <events|->` (see `producer/verif_rawsocket_test.go`).
 
 For scripts whose outcome is fixed by the script itself (unix sockets: a write to a connection the
@@ -96,6 +98,49 @@ def producerxLine (rm n w d : String) : String :=
   | some rm, some n =>
     let r := run (scriptW ws) (scriptD ds) rm (List.replicate n [])
     s!"ec={r.ec} recv={showRuns r.delivered}"
+  | _, _ => "bad-op"
+
+/-- indices as runs: `0-3,5,7-9` (`none` when empty) -/
+def showIdxRuns (xs : List Nat) : String :=
+  let rec go (cur : Option (Nat × Nat)) (acc : List String) : List Nat → List String
+    | [] => match cur with
+      | none => acc.reverse
+      | some (a, b) => ((if a = b then s!"{a}" else s!"{a}-{b}") :: acc).reverse
+    | x :: xs =>
+      match cur with
+      | none => go (some (x, x)) acc xs
+      | some (a, b) =>
+        if x = b + 1 then go (some (a, x)) acc xs
+        else go (some (x, x)) ((if a = b then s!"{a}" else s!"{a}-{b}") :: acc) xs
+  match go none [] xs with
+  | [] => "none"
+  | l => ",".intercalate l
+
+/-- `producerk <mode> <buf> <seed> <n> <script>` (see `producer/verif_sarama_test.go`): the send loop
+    of `KafkaSarama.inputMsg` **as regenerated from the current source** (`Gen.saramaLoop`) run on `n`
+    messages against the arm script the library will present.
+
+    `arms`: the script is the arm sequence itself (`i` / `e`), after it the library accepts.
+    `mock` with unbuffered channels (`buf` = 0): sarama's mock accepts an input, and when its
+    expectation says `f` it then offers the error report and accepts nothing until the report has
+    been taken: `s` ↦ `i`, `f` ↦ `i e`. With buffered channels both arms can be ready: `nd`. -/
+def producerkLine (mode buf _seed n script : String) : String :=
+  match buf.toNat?, n.toNat? with
+  | some b, some n =>
+    let cs := if script = "-" then [] else script.toList
+    let arms? : Option (List Arm) :=
+      if mode = "arms" then
+        cs.mapM fun c => if c = 'i' then some Arm.input else if c = 'e' then some Arm.error else none
+      else if mode = "mock" then
+        (cs.mapM fun c => if c = 's' then some [Arm.input] else if c = 'f' then some [Arm.input, Arm.error] else none).map List.flatten
+      else none
+    match arms? with
+    | none => "bad-op"
+    | some arms =>
+      if mode = "mock" ∧ b ≠ 0 then "nd" else
+      let r := runK Vflow.Gen.saramaLoop (arms ++ List.replicate n Arm.input) (List.range n)
+      if r.stuck then "stuck" else
+      s!"off={showIdxRuns r.offered} ec={r.ec} rep={r.logged}"
   | _, _ => "bad-op"
 
 end Driver
